@@ -9,7 +9,8 @@
 //   st     stop()                 dt             delete the collector (destructor)
 //   sg<k> / wt<k>  set / wait for driver flag k        sl<n>  usleep(n ms)      (only shape the schedule; not part of the history)
 // params: cap = set_queue_capacity (0: keep the default), nreg = regions, style = 0 accessor per region /
-//         1 thread-local (each region used by one thread)
+//         1 thread-local (each region used by one thread), qbase = initial ticket of the internal queue (white box)
+// en<r> on a region that is already open nests (depth 2): only the outermost pair enters / leaves.
 #include <babylon/concurrent/garbage_collector.h>
 
 #include <sched.h>
@@ -134,6 +135,16 @@ void scenario_gc(const vrun::Params& p) {
   w.gc = new GC;
   if (cap > 0) w.gc->set_queue_capacity(cap);
   GC& gc = *w.gc;
+  // white box: start the queue at ticket `qbase` (a multiple of the capacity) - as if qbase tasks had gone through -
+  // to reach the wrap of the 16-bit slot versions (round 32768) with a handful of retirements
+  size_t qbase = (size_t)p.get("qbase", 0);
+  if (qbase != 0) {
+    auto& q = gc._queue;
+    qbase -= qbase % q.capacity();
+    q._next_push_index.store(qbase, std::memory_order_relaxed);
+    q._next_pop_index.store(qbase, std::memory_order_relaxed);
+    for (size_t i = 0; i < q.capacity(); i++) q._slots.futex(i)._futex.value().store(q.push_version_for_index(qbase), std::memory_order_relaxed);
+  }
   gc._epoch._slots.ensure(0);
   w.accs.resize(nreg + 1);
   if (w.style == 0)
@@ -173,7 +184,7 @@ void scenario_gc(const vrun::Params& p) {
 }
 
 struct Reg {
-  Reg() { vrun::add("gc", scenario_gc, "prog=rt1.st.dt,cap=2,nreg=1,style=0"); }
+  Reg() { vrun::add("gc", scenario_gc, "prog=rt1.st.dt,cap=2,nreg=1,style=0,qbase=0"); }
 } reg;
 
 } // namespace
